@@ -73,7 +73,7 @@ fn main() {
                 "C01" => ops_inc::gen_c01(&mut rng, if thorough { 30000 } else { 2500 }, &mut out),
                 "C02" => ops_inc::gen_c02(&mut rng, if thorough { 30000 } else { 2500 }, &mut out),
                 "C03" => ops_sem::gen_c03(&mut rng, if thorough { 8000 } else { 600 }, &mut out),
-                "FEAT" => ops_feat::gen_feature_cases(&mut rng, if thorough { 3000 } else { 300 }, &["GOTO", "PREP", "REFS", "REN", "HOV", "SIG", "FOLD", "SEM", "COMP"], 25, &mut out),
+                "FEAT" => ops_feat::gen_feature_cases(&mut rng, if thorough { 3000 } else { 300 }, &["GOTO", "PREP", "REFS", "REN", "HOV", "SIG", "FOLD", "SEM", "COMP", "FMT"], 25, &mut out),
                 "C04" => ops_parse::gen_c04(&mut rng, if thorough { 6000 } else { 500 }, &mut out),
                 "C05" => ops_parse::gen_c05(&mut rng, if thorough { 20000 } else { 1500 }, &mut out),
                 "NEW" => ops_parse::gen_new(&mut rng, if thorough { 20000 } else { 2000 }, &mut out),
